@@ -507,14 +507,21 @@ pub fn pool<F: Fn(usize)>(n: usize, workers: usize, shm: &Arc<Shm>, deadline: Op
                 // each job in its own process: an abort must not take the worker with it
                 let jp = unsafe { libc::fork() };
                 if jp == 0 {
+                    crate::watchdog::arm();
                     job(j);
                     unsafe { libc::_exit(0) };
                 }
                 let mut st: libc::c_int = 0;
                 unsafe { libc::waitpid(jp, &mut st, 0) };
                 if !(libc::WIFEXITED(st) && libc::WEXITSTATUS(st) == 0) {
-                    shm.add(C_MACHINERY, 1);
-                    shm.push_record(b'M', format!("job {} died (wait status {})", j, st).as_bytes());
+                    match crate::watchdog::describe_exit(st) {
+                        // the subject does not terminate: a verdict, not a machinery failure
+                        Some(m) => shm.push_record(b'H', format!("job {} of {}: {}", j, n, m).as_bytes()),
+                        None => {
+                            shm.add(C_MACHINERY, 1);
+                            shm.push_record(b'M', format!("job {} died (wait status {})", j, st).as_bytes())
+                        }
+                    };
                 }
                 shm.add(C_TASKS_DONE, 1);
             }
@@ -528,6 +535,11 @@ pub fn pool<F: Fn(usize)>(n: usize, workers: usize, shm: &Arc<Shm>, deadline: Op
         unsafe { libc::waitpid(pid, &mut st, 0) };
         if !(libc::WIFEXITED(st) && libc::WEXITSTATUS(st) == 0) {
             machinery.push(format!("worker died (wait status {})", st));
+        }
+    }
+    for (tag, data) in shm.records() {
+        if tag == b'H' {
+            machinery.push(format!("{}{}", crate::report::NO_PROGRESS, String::from_utf8_lossy(&data)));
         }
     }
     ((shm.get(C_TASKS_DONE) as usize) < n, machinery)
@@ -559,6 +571,7 @@ pub fn replay_crash_point(h: &History, spec: &CrashSpec, p: usize, torn: Option<
     let shm = Arc::new(Shm::new(1 << 10, 1 << 20));
     let pid = unsafe { libc::fork() };
     if pid == 0 {
+        crate::watchdog::arm();
         let h2 = h.clone();
         let spec2 = spec.clone();
         let shm2 = Arc::clone(&shm);
